@@ -226,7 +226,8 @@ def harness_dir():
             os.unlink(q)
     lock = os.path.join(d, "Cargo.lock")
     if not os.path.exists(lock):
-        shutil.copy(os.path.join(REPO, "Cargo.lock"), lock)
+        src_lock = os.path.join(REPO, "Cargo.lock")
+        shutil.copy(src_lock if os.path.exists(src_lock) else "/repo/Cargo.lock", lock)
     return d
 
 
@@ -400,3 +401,35 @@ def write_evidence(pid, obj):
     d = os.path.join(ROOT, "evidence")
     os.makedirs(d, exist_ok=True)
     json.dump(obj, open(os.path.join(d, pid + ".json"), "w"), indent=1)
+
+
+# ------------------------------------------------------------------ shrinking
+def ddmin_bytes(data, still_fails, max_rounds=400):
+    """Greedy delta debugging on a byte string: remove chunks, then single bytes, then simplify bytes."""
+    data = bytes(data)
+    rounds = 0
+    chunk = max(1, len(data) // 2)
+    while chunk >= 1 and rounds < max_rounds:
+        i = 0
+        changed = False
+        while i < len(data) and rounds < max_rounds:
+            cand = data[:i] + data[i + chunk:]
+            rounds += 1
+            if len(cand) < len(data) and still_fails(cand):
+                data = cand
+                changed = True
+            else:
+                i += chunk
+        if not changed or chunk > 1:
+            chunk = chunk // 2 if chunk > 1 else (0 if not changed else 1)
+    for i in range(len(data)):
+        for repl in (b"a", b" "):
+            if rounds >= max_rounds:
+                break
+            if data[i:i + 1] not in (repl, b'"', b"\\", b"{", b"}", b"=", b"#", b"\n"):
+                cand = data[:i] + repl + data[i + 1:]
+                rounds += 1
+                if still_fails(cand):
+                    data = cand
+                    break
+    return data
